@@ -10,6 +10,7 @@ package main
 import (
 	"context"
 	"fmt"
+	"io"
 	"sort"
 	"strings"
 	"sync/atomic"
@@ -102,10 +103,13 @@ func oracleMerge(out []Item, srcs map[int][]Ev, bk bool, storedSorted bool) *Vio
 // ------------------------------------------------------------------ direct runs
 
 type obsRec struct {
-	coq  []string
-	gets []*Item // results of OGet in order (nil = EOF)
-	hang bool
+	coq    []string
+	gets   []*Item // results of OGet in order (nil = EOF, failedGet = the call failed with another error)
+	hang   bool
+	failed int
 }
+
+var failedGet = &Item{Src: -99}
 
 func lineOf(i int) tag.Line { return tag.Line(fmt.Sprintf("src=s%02d", i)) }
 
@@ -170,10 +174,16 @@ func runDirect(rp *Replay) (Case, error) {
 		return Case{}, fmt.Errorf("newCursor asked for %d iterators of %d sources, limit %d", len(f.order), n, f.gotLimit)
 	}
 	rec := &obsRec{}
+	var kops []Op // the script the model runs: the operations without the Gets that failed
 	done := make(chan struct{})
 	go func() {
 		defer close(done)
 		for _, o := range rp.Ops {
+			if o.K == "failget" {
+				kops = append(kops, Op{K: "get"})
+			} else {
+				kops = append(kops, o)
+			}
 			switch o.K {
 			case "get":
 				le, ln, err := cur.Get(ctx)
@@ -181,6 +191,42 @@ func runDirect(rp *Replay) (Case, error) {
 					rec.coq = append(rec.coq, "(RItem None)")
 					rec.gets = append(rec.gets, nil)
 				} else {
+					si, ok := lineIdx[string(ln)]
+					if !ok {
+						si = -1
+					}
+					it := Item{Ts: le.Timestamp, Id: idOf(string(le.Msg)), Src: si}
+					rec.coq = append(rec.coq, GApp("RItem", GSome(gItem(it))))
+					rec.gets = append(rec.gets, &it)
+				}
+			case "failget":
+				// a Get during which a source fails with an error that is not EOF (N = 0: the first source the mixers ask
+				// answers a read error once; N = 1: the context of this one call is cancelled and the sources honour it).
+				// The failed call must leave every source where it was: it is left out of the model's script; if no source
+				// was asked (everything needed was buffered) the call is an ordinary Get.
+				gctx := ctx
+				if o.N == 1 {
+					c2, cancel := context.WithCancel(ctx)
+					cancel()
+					gctx = c2
+				} else {
+					for _, it := range f.its {
+						it.failNext = true
+					}
+				}
+				le, ln, err := cur.Get(gctx)
+				for _, it := range f.its {
+					it.failNext = false
+				}
+				switch {
+				case err != nil && err != io.EOF:
+					rec.gets = append(rec.gets, failedGet)
+					kops = kops[:len(kops)-1]
+					rec.failed++
+				case err == io.EOF:
+					rec.coq = append(rec.coq, "(RItem None)")
+					rec.gets = append(rec.gets, nil)
+				default:
 					si, ok := lineIdx[string(ln)]
 					if !ok {
 						si = -1
@@ -231,7 +277,7 @@ func runDirect(rp *Replay) (Case, error) {
 		ord[k] = Src{Tag: i, Recs: rp.Srcs[i].Recs}
 	}
 	cs := Case{
-		Coq:    GApp("KScript", gSrcs(ord), gFlt(rp.Flt), gPos(rp.Pos), gOps(rp.Ops), GList(obs)),
+		Coq:    GApp("KScript", gSrcs(ord), gFlt(rp.Flt), gPos(rp.Pos), gOps(kops), GList(obs)),
 		Replay: rp,
 		Stream: "direct",
 	}
@@ -245,6 +291,9 @@ func runDirect(rp *Replay) (Case, error) {
 	cs.Tags = []string{fmt.Sprintf("direct:nsrc=%d", n), "direct:script=" + map[string]string{"": "random", "fw": "drain-fw", "bk": "drain-bk", "turn-fb": "turn-fb", "turn-bf": "turn-bf"}[rp.Drain]}
 	if rp.Flt != nil {
 		cs.Tags = append(cs.Tags, "direct:filtered")
+	}
+	if rec.failed > 0 {
+		cs.Tags = append(cs.Tags, "direct:failed-get")
 	}
 	if rec.hang {
 		cs.Oracle = &Violation{Class: "c04-hang", Detail: "a cursor operation of the script did not return"}
@@ -262,9 +311,13 @@ func runDirect(rp *Replay) (Case, error) {
 		eof := false
 		for _, o := range rp.Ops {
 			switch o.K {
-			case "get":
-				last = rec.gets[gi]
+			case "get", "failget":
+				g := rec.gets[gi]
 				gi++
+				if g == failedGet {
+					continue // the failed call delivered nothing and must not have moved anything
+				}
+				last = g
 				if last == nil {
 					eof = true
 				}
@@ -442,6 +495,8 @@ func genDirectN(r *Rng, n, kind int, script string) *Replay {
 		x = 0
 	case "bk":
 		x = 30
+	case "fail":
+		x = r.PickInt(0, 0, 30)
 	case "turn":
 		x = 45
 	case "random":
@@ -516,7 +571,17 @@ func genDirectN(r *Rng, n, kind int, script string) *Replay {
 		}
 	}
 	if rp.Drain != "" {
+		failAt := -1
+		if n >= 2 && (script == "fail" || r.Chance(1, 4)) {
+			failAt = r.Intn(total + 1) // before the Get of this step a source fails with a non-EOF error, the script goes on reading
+		}
 		for k := 0; k < total+2; k++ {
+			if k == failAt {
+				rp.Ops = append(rp.Ops, Op{K: "failget", N: r.Intn(2)})
+				if r.Chance(1, 3) {
+					rp.Ops = append(rp.Ops, Op{K: "release"})
+				}
+			}
 			rp.Ops = append(rp.Ops, Op{K: "get"})
 			if r.Chance(1, 4) {
 				rp.Ops = append(rp.Ops, Op{K: "release"})
@@ -915,7 +980,8 @@ func run(c *Ctx) error {
 	fix := []struct {
 		n, kind int
 		script  string
-	}{{17, 4, "fw"}, {17, 4, "bk"}, {33, 1, "turn"}, {50, 0, "fw"}, {50, 4, "turn"}, {49, 1, "bk"}, {16, 4, "random"}, {31, 2, "fw"}, {2, 4, "turn"}, {3, 4, "turn"}, {5, 4, "bk"}, {9, 4, "fw"}, {32, 3, "fw"}, {15, 0, "random"}}
+	}{{17, 4, "fw"}, {17, 4, "bk"}, {33, 1, "turn"}, {50, 0, "fw"}, {50, 4, "turn"}, {49, 1, "bk"}, {16, 4, "random"}, {31, 2, "fw"}, {2, 4, "turn"}, {3, 4, "turn"}, {5, 4, "bk"}, {9, 4, "fw"}, {32, 3, "fw"}, {15, 0, "random"},
+		{2, 0, "fail"}, {3, 1, "fail"}, {3, 4, "fail"}, {5, 0, "fail"}, {9, 1, "fail"}, {4, 2, "fail"}}
 	for i, f := range fix {
 		if i < len(reps) {
 			reps[i] = genDirectN(c.Rng.Fork(), f.n, f.kind, f.script)
